@@ -1232,6 +1232,21 @@ def p_one(eng, st, name, args, site, depth, call):
     return one(st, ("lit", 1))
 
 
+@prim("cosmwasm_std::wasm_execute")
+def p_wasm_execute(eng, st, name, args, site, depth, call):
+    """wasm_execute(addr, &msg, funds) = Ok(WasmMsg::Execute{contract_addr: addr.into(), msg: to_json_binary(msg)?, funds})"""
+    addr, msg, funds = vals(eng, st, args)
+    ser = ("call", "cosmwasm_std::to_json_binary", (msg,))
+    out = []
+    for s, n, p in eng.force_enum(st, ser, RESULT, site):
+        if n == "Ok":
+            out.append((s, OK(("variant", "cosmwasm_std::results::cosmos_msg::WasmMsg", "Execute",
+                                (("contract_addr", addr), ("msg", p[0]), ("funds", funds))))))
+        else:
+            out.append((s, ERR(p[0])))
+    return out
+
+
 @prim("std::option::Option::flatten")
 def p_opt_flatten(eng, st, name, args, site, depth, call):
     out = []
